@@ -285,8 +285,8 @@ def zip_store(rep, prog, rule, floor=20):
                                 src = None
                                 if rv[0] == "ref" and rv[1] in ("mut", "two_phase"):
                                     src = rv[2][0]
-                                elif rv[0] == "use" and rv[1][0] in ("c", "m") and len(rv[1][1]) == 1:
-                                    src = rv[1][1][0]
+                                elif rv[0] == "use" and rv[1][0] in ("c", "m") and rv[1][1]:
+                                    src = rv[1][1][0]          # also `*dst` of a `&mut &mut [T]` item
                                 elif rv[0] == "raw" and len(rv) > 2 and isinstance(rv[2], list):
                                     src = rv[2][0]              # `&raw mut (*dst)`
                                 elif rv[0] in ("cast", "rawptr", "addr") and len(rv) > 2:
